@@ -685,6 +685,9 @@ mod if_alloc {
     pub mod shared {
         use super::*;
         use crate::channel::shared::{ChannelReceiveFuture, ChannelSendFuture};
+        #[cfg(futures_intrusive_verif)]
+        use crate::verif::sync::{AtomicUsize, Ordering};
+        #[cfg(not(futures_intrusive_verif))]
         use core::sync::atomic::{AtomicUsize, Ordering};
 
         /// Shared Channel State, which is referenced by Senders and Receivers
